@@ -218,13 +218,13 @@ class SurfaceF(Family):
             sv = pv + 1 + rng.randint(0, 3)
             if su == sv:
                 sv += 1
-            kind = rng.choice(["uniform", "mult", "mult", "affine"])
+            kind = rng.choice(["uniform", "mult", "mult", "affine", "unclamped"])
             Uu, Uv = kv_for(rng, pu, su, kind), kv_for(rng, pv, sv, kind)
             dim = dims(rng)
             rat = rng.random() < 0.5
             us, vs = params(rng, Uu, pu, 3) + [Uu[pu], Uu[su]], params(rng, Uv, pv, 3) + [Uv[sv], Uv[pv]]
             c = {"pu": pu, "pv": pv, "su": su, "sv": sv, "Uu": Uu, "Uv": Uv, "P": gc.points(rng, su * sv, dim), "rational": rat,
-                 "kind": kind, "normalize": kind != "affine", "uvs": [[a, b] for a, b in zip(us, vs)],
+                 "kind": kind, "normalize": kind in ("uniform", "mult"), "uvs": [[a, b] for a, b in zip(us, vs)],
                  "sample": [rng.randint(2, 5), rng.randint(2, 6)], "sample2": [rng.randint(2, 5), rng.randint(2, 6)],
                  "which": rng.choice(["u", "v", "uv", "vu"])}
             if rat:
@@ -345,13 +345,13 @@ class VolumeF(Family):
             pu, pv, pw = rng.randint(1, 3), rng.randint(1, 3), rng.randint(1, 2)
             sizes = rng.sample([2, 3, 4, 5, 6], 3)
             su, sv, sw = max(sizes[0], pu + 1), max(sizes[1], pv + 1), max(sizes[2], pw + 1)
-            kind = rng.choice(["uniform", "mult", "affine"])
+            kind = rng.choice(["uniform", "mult", "affine", "unclamped"])
             Uu, Uv, Uw = kv_for(rng, pu, su, kind), kv_for(rng, pv, sv, kind), kv_for(rng, pw, sw, kind)
             rat = rng.random() < 0.5
             ps = [[a, b, cc] for a, b, cc in zip(params(rng, Uu, pu, 2) + [Uu[pu], Uu[su]], params(rng, Uv, pv, 2) + [Uv[sv], Uv[pv]],
                                                  params(rng, Uw, pw, 2) + [Uw[pw], Uw[sw]])]
             c = {"pu": pu, "pv": pv, "pw": pw, "su": su, "sv": sv, "sw": sw, "Uu": Uu, "Uv": Uv, "Uw": Uw,
-                 "P": gc.points(rng, su * sv * sw, 3), "rational": rat, "kind": kind, "normalize": kind != "affine",
+                 "P": gc.points(rng, su * sv * sw, 3), "rational": rat, "kind": kind, "normalize": kind in ("uniform", "mult"),
                  "uvws": ps, "sample": [rng.randint(2, 3), rng.randint(2, 4), rng.randint(2, 3)]}
             if rat:
                 c["W"] = gc.weights(rng, su * sv * sw)
